@@ -36,29 +36,91 @@ theorem nosearch_exact (t : Tree) (p q : Path) :
       q = p ∧ t.kind p ≠ .absent ∧ isProject t p = true ∧ GateOk t p :=
   getProject_nosearch_ok_iff t p q
 
-/-- Under the layout hypothesis of the property (names containing an id occur only as
-    directories named exactly by an id directly inside a project's `workspace`),
-    `get_job(p)` returns `(j, q)` iff `q/workspace/j` is a job directory at or above `p`,
-    every job directory at or above `p` is at or above it (= it is the innermost one), and `q`
-    — the project whose workspace holds it — passes the gate. -/
-theorem getJob_innermost (t : Tree) (L : Layout t) (p : Path) (j : String) (q : Path) :
+/-- The model of `get_job` is the code, literally: every component is scanned with
+    `re.finditer` and only matches spanning the whole component pass the filter.  That comes to:
+    a component has such a match iff it IS an id (`isIdName`: `idLen` characters of `[a-f0-9]`),
+    the match then ends at `idLen`, and the matched id and the component cut at the end of the
+    match are the component itself. -/
+theorem complete_match_iff_idName (c : String) :
+    (lastMatchEnd c).isSome = isIdName c
+    ∧ (isIdName c = true →
+        lastMatchEnd c = some idLen ∧ matchedId c idLen = c ∧ cutAt c idLen = c) :=
+  ⟨lastMatchEnd_isSome c, fun h =>
+    ⟨idLike_lastMatchEnd ((isIdName_iff c).mp h), idLike_matched ((isIdName_iff c).mp h),
+      idLike_cut ((isIdName_iff c).mp h)⟩⟩
+
+/-- Hence the last complete match in the path is the innermost component that is an id, taken
+    as it stands, with the path from that component up (`lastJobSimple`). -/
+theorem lastJob_simple (p : Path) : lastJob p = lastJobSimple p := lastJob_eq_simple p
+
+/-- `get_job(p)` returns `(j, q)` iff `p` exists, `j` is the innermost component of `p` that
+    is an id, the path from that component up is a directory, and `q` is the nearest project
+    strictly above that directory and passes the gate.  All trees, all paths, no layout
+    hypothesis. -/
+theorem getJob_characterised (t : Tree) (p : Path) (j : String) (q : Path) :
+    (getJob t p).1 = .ok (j, q) ↔
+      t.kind p ≠ .absent ∧ ∃ rest, AncOrSelf (j :: rest) p ∧ isIdName j = true ∧
+        (∀ h' tl, AncOrSelf (h' :: tl) p → isIdName h' = true → AncOrSelf (h' :: tl) (j :: rest)) ∧
+        t.kind (j :: rest) = .dir ∧ Nearest t rest q ∧ GateOk t q :=
+  getJob_ok_iff_simple t p j q
+
+/-- No phantom jobs, no layout hypothesis: whatever `get_job(p)` returns, the id is a complete
+    component of `p`, it is an id, and the path cut at that component is a directory of the
+    tree at or above `p`. -/
+theorem getJob_never_phantom (t : Tree) (p : Path) (j : String) (q : Path)
+    (h : (getJob t p).1 = .ok (j, q)) :
+    j ∈ p ∧ isIdName j = true ∧
+      ∃ rest, AncOrSelf (j :: rest) p ∧ t.kind (j :: rest) = .dir := by
+  obtain ⟨_, rest, hs, hid, _, hd, _, _⟩ := (getJob_ok_iff_simple t p j q).mp h
+  exact ⟨hs.mem (List.mem_cons_self ..), hid, rest, hs, hd⟩
+
+/-- Look-alikes are ignored: if no component of `p` is an id — whatever id-like runs the
+    components contain — `get_job(p)` raises LookupError and does nothing. -/
+theorem getJob_ignores_lookalikes (t : Tree) (p : Path) (h : ∀ c ∈ p, isIdName c = false) :
+    getJob t p = (.error .lookup, []) := by
+  unfold getJob
+  by_cases hk : t.kind p = .absent
+  · simp [hk]
+  · simp [hk, (lastJob_none p).mpr h]
+
+/-- Under the (weak) layout hypothesis of the property — a directory whose name IS an id sits
+    directly inside a project's `workspace`, which is not itself a project; existing id-named
+    paths are directories; existing paths sit in directories; names merely containing an
+    id-like run are unconstrained — `get_job(p)` returns `(j, q)` iff `q/workspace/j` is a job
+    directory at or above `p`, every job directory at or above `p` is at or above it (= it is
+    the innermost one), and `q` — the project whose workspace holds it — passes the gate. -/
+theorem getJob_innermost (t : Tree) (L : LayoutW t) (p : Path) (j : String) (q : Path) :
     (getJob t p).1 = .ok (j, q) ↔
       t.kind p ≠ .absent ∧ GateOk t q ∧ IsJobDir t (j :: "workspace" :: q) ∧
         AncOrSelf (j :: "workspace" :: q) p ∧
         ∀ d, IsJobDir t d → AncOrSelf d p → AncOrSelf d (j :: "workspace" :: q) :=
   getJob_innermost_aux t L p j q
 
+/-- the old layout hypothesis (no name may even CONTAIN an id-like run unless it is a job
+    directory) implies the weak one, -/
+theorem layout_weaker (t : Tree) (L : Layout t) : LayoutW t := L.toW
+
+/-- so the old statement is a corollary. -/
+theorem getJob_innermost_strict (t : Tree) (L : Layout t) (p : Path) (j : String) (q : Path) :
+    (getJob t p).1 = .ok (j, q) ↔
+      t.kind p ≠ .absent ∧ GateOk t q ∧ IsJobDir t (j :: "workspace" :: q) ∧
+        AncOrSelf (j :: "workspace" :: q) p ∧
+        ∀ d, IsJobDir t d → AncOrSelf d p → AncOrSelf d (j :: "workspace" :: q) :=
+  getJob_innermost t L.toW p j q
+
 /-- LookupError, never a guess: a non-existent path; nothing at or above the path (no project, no
-    legacy config); no id in the path; the id-named path is not a directory. And whatever is
-    returned is a project at or above the query. -/
+    legacy config); no component of the path is an id; the id-named path is not a directory.
+    And whatever is returned is a project at or above the query. -/
 theorem lookup_errors (t : Tree) (p : Path) :
     (t.kind p = .absent → ∀ s, getProject t p s = (.error .lookup, []))
     ∧ (t.kind p = .absent → getJob t p = (.error .lookup, []))
     ∧ ((∀ r, AncOrSelf r p → isProject t r = false) → (∀ r, AncOrSelf r p → t.rc r = none) →
         ∀ s, getProject t p s = (.error .lookup, []))
-    ∧ ((∀ c ∈ p, ¬ HasMatch c) → getJob t p = (.error .lookup, []))
+    ∧ ((∀ c ∈ p, isIdName c = false) → getJob t p = (.error .lookup, []))
+    ∧ (∀ j rest, lastJob p = some (j, rest) → t.kind rest ≠ .dir →
+        getJob t p = (.error .lookup, []))
     ∧ (∀ s q, (getProject t p s).1 = .ok q → AncOrSelf q p ∧ isProject t q = true) := by
-  refine ⟨?_, ?_, ?_, ?_, ?_⟩
+  refine ⟨?_, ?_, ?_, ?_, ?_, ?_⟩
   · intro h s; simp [getProject, h]
   · intro h; simp [getJob, h]
   · intro h1 h2 s
@@ -68,11 +130,12 @@ theorem lookup_errors (t : Tree) (p : Path) :
     · cases s
       · simp [hk, h1 p (List.suffix_refl _)]
       · simp [hk, getProjectFrom_nothing t p h1 h2]
-  · intro h
+  · exact getJob_ignores_lookalikes t p
+  · intro j rest hl hd
     unfold getJob
     by_cases hk : t.kind p = .absent
     · simp [hk]
-    · simp [hk, (lastJob_none p).mpr h]
+    · simp [hk, hl, hd]
   · intro s q h
     cases s
     · have := (getProject_nosearch_ok_iff t p q).mp h
@@ -138,8 +201,11 @@ def exNodes : List Node := [
 
 def exTree : Tree := Tree.ofNodes exNodes
 
-/-- the layout hypothesis is satisfiable by a tree with a project nested in a job directory -/
+/-- the (old, strict) layout hypothesis is satisfiable by a tree with a project nested in a job
+    directory, and so is the weak one -/
 theorem exTree_layout : Layout exTree := layout_of_check exNodes (by decide)
+
+theorem exTree_layoutW : LayoutW exTree := exTree_layout.toW
 
 /-- in it, the nearest project of the nested data directory is the nested project, -/
 example : findProject exTree ["data", idB, "workspace", "N", "sub", idA, "workspace", "P"]
@@ -161,5 +227,97 @@ example : isProject exTree ["P"] = true ∧ exTree.kind ["P"] ≠ .absent
     ∧ hasWorkspace exTree ["P"] = true := by decide
 
 example : isProject exTree ["x"] = false ∧ exTree.rc ["x"] = none := by decide
+
+/-! ### look-alikes -/
+
+def lookX : String := "x0123456789abcdef0123456789abcdef"             -- "x" ++ idA
+def lookBak : String := "0123456789abcdef0123456789abcdef.bak"        -- idA ++ ".bak"
+def look40 : String := "0123456789abcdef0123456789abcdef01234567"     -- idA ++ 8 more hex characters
+
+example : lookX = "x" ++ idA ∧ lookBak = idA ++ ".bak" ∧ look40 = idA ++ "01234567" := by decide
+
+/-- `/P` project with the real job `idA`; next to it in the workspace three look-alike
+    directories (`x<id>`, `<id>.bak`, a 40-hex name), each with a file inside; inside the real job
+    directory a look-alike directory `x<id>` with a file inside. -/
+def lookNodes : List Node := [
+  ⟨[], .dir, none, none⟩,
+  ⟨["P"], .dir, some (some 2), none⟩,
+  ⟨["workspace", "P"], .dir, none, none⟩,
+  ⟨[idA, "workspace", "P"], .dir, none, none⟩,
+  ⟨[lookX, "workspace", "P"], .dir, none, none⟩,
+  ⟨["f", lookX, "workspace", "P"], .file, none, none⟩,
+  ⟨[lookBak, "workspace", "P"], .dir, none, none⟩,
+  ⟨["f", lookBak, "workspace", "P"], .file, none, none⟩,
+  ⟨[look40, "workspace", "P"], .dir, none, none⟩,
+  ⟨["f", look40, "workspace", "P"], .file, none, none⟩,
+  ⟨[lookX, idA, "workspace", "P"], .dir, none, none⟩,
+  ⟨["f", lookX, idA, "workspace", "P"], .file, none, none⟩ ]
+
+def lookTree : Tree := Tree.ofNodes lookNodes
+
+/-- the look-alikes contain a match of the pattern (the OLD code took it), but are no ids -/
+example : hasMatchB lookX = true ∧ hasMatchB lookBak = true ∧ hasMatchB look40 = true
+    ∧ isIdName lookX = false ∧ isIdName lookBak = false ∧ isIdName look40 = false
+    ∧ isIdName idA = true := by decide
+
+/-- the tree with look-alikes satisfies the weak layout hypothesis but not the old one: the
+    weakening is strict -/
+theorem lookTree_layoutW : LayoutW lookTree := layoutW_of_check lookNodes (by decide)
+
+theorem lookTree_not_layout : ¬ Layout lookTree := by
+  intro L
+  have := (L.idlike lookX ["workspace", "P"] (by decide) ((hasMatchB_iff lookX).mp (by decide))).2.1
+  exact absurd ((isIdName_iff lookX).mpr this) (by decide)
+
+/-- `get_job` of a look-alike directory, or of a file in it: LookupError, nothing done -/
+example : getJob lookTree [lookX, "workspace", "P"] = (.error .lookup, [])
+    ∧ getJob lookTree ["f", lookX, "workspace", "P"] = (.error .lookup, []) := ⟨by rfl, by rfl⟩
+
+example : getJob lookTree [lookBak, "workspace", "P"] = (.error .lookup, [])
+    ∧ getJob lookTree ["f", lookBak, "workspace", "P"] = (.error .lookup, []) := ⟨by rfl, by rfl⟩
+
+example : getJob lookTree [look40, "workspace", "P"] = (.error .lookup, [])
+    ∧ getJob lookTree ["f", look40, "workspace", "P"] = (.error .lookup, []) := ⟨by rfl, by rfl⟩
+
+/-- a look-alike directory INSIDE a real job directory: the enclosing job is returned -/
+example : getJob lookTree [lookX, idA, "workspace", "P"] = (.ok (idA, ["P"]), [])
+    ∧ getJob lookTree ["f", lookX, idA, "workspace", "P"] = (.ok (idA, ["P"]), []) := ⟨by rfl, by rfl⟩
+
+/-- the hypotheses of `getJob_ignores_lookalikes` hold of the first three queries -/
+example : (∀ c ∈ ["f", lookX, "workspace", "P"], isIdName c = false)
+    ∧ (∀ c ∈ ["f", lookBak, "workspace", "P"], isIdName c = false)
+    ∧ (∀ c ∈ ["f", look40, "workspace", "P"], isIdName c = false) := by decide
+
+/-! ### the clause "existing id-named paths are directories" of `LayoutW` is needed -/
+
+/-- `/P` project, job `idA`, and inside the job directory a FILE whose name is an id. -/
+def fileNodes : List Node := [
+  ⟨[], .dir, none, none⟩,
+  ⟨["P"], .dir, some (some 2), none⟩,
+  ⟨["workspace", "P"], .dir, none, none⟩,
+  ⟨[idA, "workspace", "P"], .dir, none, none⟩,
+  ⟨[idB, idA, "workspace", "P"], .file, none, none⟩ ]
+
+def fileTree : Tree := Tree.ofNodes fileNodes
+
+/-- If the layout hypothesis constrains only id-named DIRECTORIES (`LayoutDirOnly`: `LayoutW`
+    without its clause `iddir`), the equivalence of `getJob_innermost` fails: for an id-named
+    file inside a job directory `get_job` takes the file's name for the job id, finds that
+    `<file>/..` does not exist and raises LookupError, although the innermost job directory
+    containing the path exists (and its project passes the gate). -/
+theorem getJob_innermost_needs_iddir :
+    ∃ (t : Tree) (p : Path) (j : String) (q : Path), LayoutDirOnly t ∧
+      getJob t p = (.error .lookup, []) ∧
+      (t.kind p ≠ .absent ∧ GateOk t q ∧ IsJobDir t (j :: "workspace" :: q) ∧
+        AncOrSelf (j :: "workspace" :: q) p ∧
+        ∀ d, IsJobDir t d → AncOrSelf d p → AncOrSelf d (j :: "workspace" :: q)) := by
+  refine ⟨fileTree, [idB, idA, "workspace", "P"], idA, ["P"],
+    layoutDirOnly_of_check fileNodes (by decide), by rfl, by decide, ⟨some 2, by rfl, by decide⟩,
+    ⟨idA, ["P"], rfl, (isIdName_iff idA).mp (by decide), by decide, by decide⟩, List.suffix_cons _ _, ?_⟩
+  intro d hd hs
+  rcases List.suffix_cons_iff.mp hs with rfl | hs'
+  · obtain ⟨_, _, _, _, _, hk⟩ := hd
+    exact absurd hk (by decide)
+  · exact hs'
 
 end Signac.C19
